@@ -28,6 +28,7 @@ let parse_sx (s : string) : sx list =
     end else begin
       let st = !pos in
       while !pos < n && not (List.mem s.[!pos] [' '; '('; ')'; '\t'; '\n']) do incr pos done;
+      if !pos = st then failwith "sexp: unexpected )";
       A (String.sub s st (!pos - st))
     end in
   let acc = ref [] in
